@@ -126,7 +126,7 @@ def obj(*members):
 class C13(Prop):
     id = "C13"
     props = "C13_Props"
-    coq_files = ("Base", "C13_Consts", "C13_Model", "C13_Spec", "C13_Proofs", "C13_Props")
+    coq_files = ("Base", "C13_Consts", "C13_Model", "C13_Spec", "C13_Proofs", "C13_Proofs2", "C13_Props")
     models = ("C13_Model",)
     consts = ("rc",)
     packages = {"rc": "internal/app/referenceclient", "rs": "internal/app/referenceserver"}
@@ -163,6 +163,7 @@ class C13(Prop):
     level_note = ("Trusted: Coq kernel, extraction, OCaml driver, harness and its message classifier; the model/Go correspondence is sampled, "
                   "not proved. encoding/json, base64-in-Go vs the modelled base64, proto (un)marshal are oracles whose answers the Go side "
                   "re-validates on each evaluation. The debug-data comparison of error details is outside the model.")
+    _crashed = ()
     technique = "Coq proof (induction over messages / trailer lists / JSON trees; byte-class facts by 256-sweeps) + differential model-vs-Go correspondence with library oracles"
 
     # ------------------------------------------------------------------
@@ -203,9 +204,12 @@ class C13(Prop):
         if missing:
             raise core.HarnessError("C13 oracle %s: no answer for query %d" % (label, missing[0]))
         out = [res[i] for i in range(len(queries))]
-        for q, r in zip(queries, out):
+        # a panic of the code under test inside an oracle stage is a finding, not a harness error: the query is
+        # remembered (generate() turns it into a case the differential run fails on, with a replay) and answered "()"
+        for i, (q, r) in enumerate(zip(queries, out)):
             if r == [b"crash"]:
-                raise core.HarnessError("C13 oracle %s crashed on %s" % (label, core.sx(q)[:300]))
+                self._crashed.append(q)
+                out[i] = []
         return out
 
     # ------------------------------------------------------------------
@@ -287,6 +291,7 @@ class C13(Prop):
     def generate(self, rng, tier):
         quick = tier == "quick"
         cases = []
+        self._crashed = []
 
         # A. byte classes
         for c in range(256):
@@ -311,6 +316,9 @@ class C13(Prop):
             code = rng.choice([0, 0, 17, 99, 4294967295, rng.randint(1, 16)])
             errors.append([code, self._message(rng), self._details(rng), self._bad_trailers(rng) if rng.random() < 0.7 else self._wf_trailers(rng)])
         rendered = self._oracle([["c13.o.render"] + e for e in errors], "render")
+        for q in self._crashed:          # the encoders panicked: the c13.enc case panics again -> (crash) vs the model's answer
+            cases.append(["c13.enc"] + list(q[1:]) + [[]])
+        self._crashed = []
         blocks = []
         for i, (e, r) in enumerate(zip(errors, rendered)):
             if not r:
@@ -364,6 +372,11 @@ class C13(Prop):
             eos_texts.append(b"".join(parts))
         for _ in range(200 if quick else 5000):
             eos_texts.append(bytes(rng.choice(b"ab:: \t\r\n\n\r\n%A-") for _ in range(rng.randint(0, 16))))
+        # a line with an empty field name (":..."), first and not first, after blank lines, with and without CR
+        for first in (b"", b"grpc-status: 0\r\n", b"grpc-status: 0\n", b"\r\n", b"a\r\n", b"grpc-status: 3\r\ngrpc-message: m\r\n", b"\r\n\r\nx: y\r\n", b" x\r\n"):
+            for mid in (b":", b": foo", b":foo", b"::", b": ", b":\t"):
+                for end in (b"\r\n", b"\n", b"", b"\r\nz: 1\r\n"):
+                    eos_texts.append(first + mid + end)
         eos_texts += [b"", b"\r\n", b"\n", b"\r\n\r\n", b"grpc-status: 0\r\n", b"grpc-status: 0\r\n\r\n", b"grpc-status:0", b"\r\ngrpc-status: 0\r\n",
                       b" x\r\ngrpc-status: 0\r\n", b"\r\n x\r\n", b"a\r\n b\r\n", b"a: 1\r\n b\r\n\tc\r\n", b"noColon\r\n cont\r\n"]
 
@@ -562,6 +575,19 @@ class C13(Prop):
                    obj((b"k", [b"v"]), (b"k", [b"w"])), obj((b"caf\xc3\xa9", [b"caf\xc3\xa9"]))):
             json_cases.append(("c13.ces", jrender(obj((b"metadata", md))), 0))
             json_cases.append(("c13.ces", jrender(obj((b"error", obj((b"code", b"unknown"))), (b"metadata", md))), 0))
+        # code strings: the 16 names are the only ones accepted; in particular not connect-go's round-trip form
+        # "code_<n>" that Code.String() prints for out-of-range codes (and Code.UnmarshalText reads back)
+        code_strs = [b"code_0", b"code_1", b"code_5", b"code_16", b"code_17", b"code_18", b"code_20", b"code_21", b"code_99", b"code_255",
+                     b"code_65536", b"code_4294967295", b"code_4294967296", b"code_18446744073709551616", b"code_-1", b"code_+5", b"code_05",
+                     b"code_", b"code_ 5", b"code_5 ", b"Code_5", b"CODE_17", b"code17", b"17", b"5", b"unknown ", b" unknown", b"Unknown", b"UNKNOWN",
+                     b"cancelled", b"ok", b"OK", b"", b"code_1e1", b"code_0x11"]
+        code_strs += [b"code_%d" % rng.choice([rng.randint(0, 40), rng.randint(17, 2 ** 32 - 1), rng.randint(2 ** 32, 2 ** 70)])
+                      for _ in range(40 if quick else 400)]
+        for nm in code_strs:
+            json_cases.append(("c13.cerr", jrender(obj((b"code", nm))), 0))
+            json_cases.append(("c13.cerr", jrender(obj((b"message", b"m"), (b"code", nm), (b"details", [plain_detail()]))), 0))
+            json_cases.append(("c13.ces", jrender(obj((b"error", obj((b"code", nm))))), 0))
+            json_cases.append(("c13.ces", jrender(obj((b"metadata", obj((b"k", [b"v"]))), (b"error", obj((b"code", nm), (b"message", b"m"))))), 0))
         literal = [b"", b" ", b"{", b"}", b"{}", b"{} x", b"{}{}", b"[", b"nul", b"null ", b" null", b"{\"code\":\"unknown\"}\n", b"{\"code\":\"unknown\",}",
                    b"{\"code\":unknown}", b"{'code':'unknown'}", b"{\"code\":\"unk\\u006eown\"}", b"{\"co\\u0064e\":\"unknown\"}", b"{\"code\":\"unknown\"}}",
                    b"\xef\xbb\xbf{}", b"{\"code\":\"\xff\"}", b"{\"\xff\":1,\"\xfe\":2}", b"{\"a\":1e999,\"a\":1}", b"{\"a\":1,\"a\":1e999}",
@@ -618,6 +644,9 @@ class C13(Prop):
                 d = [v for k, v in hs if k == b"Grpc-Status-Details-Bin" and v]
                 q.append(["c13.o.unstatus", d[0][0] if d else b""])
         ans = self._oracle(q, "lib")
+        for cq in self._crashed:         # an examiner / library call panicked on these bytes: "never crash" is violated
+            cases.append(["c13.nocrash", cq[1]])
+        self._crashed = []
 
         def tbl(*rs):
             out = []
